@@ -173,7 +173,13 @@ func (p *Prog) BuildQueryCOI(o *Obligation) (string, bool) {
 // unfoldFor: instances for the applications in the goal (with fuel), plus one unfolding of the
 // applications in the most recent hypotheses (loop invariants / induction hypotheses of the last calls).
 func (p *Prog) unfoldFor(o *Obligation, asserts []*Term) []*Term {
-	out := p.unfoldInstances([]*Term{o.Goal}, unfoldFuel, 40)
+	fuel := unfoldFuel
+	if strings.HasPrefix(o.Kind, "loop") {
+		// continuation-style invariants: the step is one unfolding of the application in the
+		// invariant assumed at the loop head (a hypothesis), not of the applications in the goal
+		fuel = 0
+	}
+	out := p.unfoldInstances([]*Term{o.Goal}, fuel, 40)
 	if !p.mentionsHeavy(o.Goal, map[int]bool{}) {
 		return out
 	}
